@@ -229,7 +229,9 @@ func (i *Index) sort() {
 			for _, bin := range ref.Bins {
 				sort.Sort(byBeginOffset(bin.Chunks))
 			}
-			sort.Sort(byVirtOffset(ref.Intervals))
+			// The intervals are indexed by tile and must keep their
+			// positions: a reference with unoccupied tiles has zero
+			// offsets between non-zero ones.
 		}
 		i.IsSorted = true
 	}
